@@ -14,7 +14,7 @@ Definition acc_add_a (pm : pmap) (x : Z) (q : list apkt) (e : apkt) : list apkt 
   let p := snd e in
   let qs := map snd q in
   if isSameAsPrevious qs p then (q, []) else
-  let q1 := if hasDiscontinuity qs p then [] else q in
+  let q1 := if resets qs p then [] else q in
   let '(ps, q2) := if pusi p then (q1, []) else ([], q1) in
   let q3 := q2 ++ [e] in
   if (Z.eqb x C_PIDPAT || pm_mem pm x) && is_psi_complete (map snd q3) then ([], q3) else (q3, ps).
@@ -29,7 +29,7 @@ Proof.
     (if ((x =? C_PIDPAT) || pm_mem pm x) && is_psi_complete (map snd q2 ++ [snd e]) then ([], map snd q2 ++ [snd e]) else (map snd q2 ++ [snd e], map snd ps))).
   { intros q2 ps. rewrite map_app. cbn [map].
     destruct (((x =? C_PIDPAT) || pm_mem pm x) && is_psi_complete (map snd q2 ++ [snd e])); cbn [fst snd map]; rewrite ?map_app; reflexivity. }
-  destruct (hasDiscontinuity (map snd q) (snd e)); destruct (pusi (snd e)); apply G.
+  destruct (resets (map snd q) (snd e)); destruct (pusi (snd e)); apply G.
 Qed.
 
 (* a flush event: the group and the annotated packet that caused it *)
@@ -67,7 +67,7 @@ Definition no_disc_flag (p : Packet) : Prop :=
 
 (* a received packet sits at its position of a stream whose counters are consecutive: cc = (c0 + position) mod 16 *)
 Definition on_stream (c0 : Z) (e : apkt) : Prop :=
-  cc_of (snd e) = (c0 + fst e) mod 16 /\ has_payload (snd e) = true /\ no_disc_flag (snd e).
+  cc_of (snd e) = (c0 + fst e) mod 16 /\ has_payload (snd e) = true /\ (no_disc_flag (snd e) \/ pusi (snd e) = true).
 
 (* positions increase; fewer than 16 packets are lost in a row (the next position is at most 16 further); and a packet
    that follows a loss of exactly 15 is not byte-identical to the last packet received before the loss
@@ -164,19 +164,21 @@ Proof.
       specialize (H16 H). exact H16.
     - rewrite !andb_false_r. reflexivity. }
   rewrite Hsame.
-  (* no discontinuity means the packet is at the next position *)
-  assert (Hdisc : hasDiscontinuity (map snd q) (snd e) = false ->
+  (* no reset means the packet is at the next position *)
+  assert (Hdisc : resets (map snd q) (snd e) = false ->
                   q = [] \/ exists pe q', q = q' ++ [pe] /\ fst e = fst pe + 1).
   { intros Hd. destruct Hq as [->|[pe [q' [-> ->]]]]; [left; reflexivity|]. right. exists pe, q'. split; [reflexivity|].
     destruct Hprev as [Hrange _]. destruct (last_of_snoc q' pe) as [Hnth Hlen].
-    unfold hasDiscontinuity in Hd. rewrite Hnth, Hlen in Hd.
-    unfold no_disc_flag in Hdi. rewrite Hdi in Hd. cbn [orb] in Hd.
-    unfold has_payload in Hpay. rewrite Hpay in Hd. cbn [andb negb orb] in Hd.
-    rewrite orb_false_r in Hd. apply negb_false_iff, Z.eqb_eq in Hd.
+    assert (Hcd : hasCounterDiscontinuity (map snd (q' ++ [pe])) (snd e) = false).
+    { destruct (hasCounterDiscontinuity (map snd (q' ++ [pe])) (snd e)) eqn:Ec; [|reflexivity].
+      unfold resets, hasDiscontinuity in Hd. rewrite Ec in Hd. rewrite !orb_true_r in Hd. discriminate. }
+    unfold hasCounterDiscontinuity in Hcd. rewrite Hnth, Hlen in Hcd.
+    unfold has_payload in Hpay. rewrite Hpay in Hcd. cbn [andb negb orb] in Hcd.
+    rewrite orb_false_r in Hcd. apply negb_false_iff, Z.eqb_eq in Hcd.
     assert (Hpe : on_stream c0 pe) by (rewrite Forall_app in Hall; destruct Hall as [_ Hl]; inversion Hl; assumption).
-    destruct Hpe as [Hcc' _]. unfold cc_of in *. rewrite Hcc, Hcc' in Hd.
-    pose proof (mod16_step (c0 + fst pe) (c0 + fst e) ltac:(lia) (eq_sym Hd)). lia. }
-  destruct (hasDiscontinuity (map snd q) (snd e)) eqn:Ed.
+    destruct Hpe as [Hcc' _]. unfold cc_of in *. rewrite Hcc, Hcc' in Hcd.
+    pose proof (mod16_step (c0 + fst pe) (c0 + fst e) ltac:(lia) (eq_sym Hcd)). lia. }
+  destruct (resets (map snd q) (snd e)) eqn:Ed.
   - (* discontinuity: the queue is dropped, nothing is flushed *)
     destruct (pusi (snd e)); cbn [app]; (split; [exact Hsingle | intros H; contradiction]).
   - destruct (Hdisc eq_refl) as [->|[pe [q' [-> Hnext]]]].
